@@ -22,6 +22,12 @@ CLAIMS = {
  "C09": dict(
     text="Proof (Verus) that format_osc8_hyperlink returns opener + text + closer in one string (every link that is opened is closed on the same line, the text between is unchanged).",
     note=_COMMON_NOTE + " ansi_term's Display (reset after every painted run) is assumed, not verified; truncation (truncate_str_impl) and the background fill are not yet under contract."),
+ "C15": dict(
+    text="Proof (Verus) of the closure that superimposes the syntax style on the diff style inside the real coalesce(): the result equals the diff style except for ansi_term_style.foreground, which changes only if the diff style is marked is_syntax_highlighted and the syntax style is not the null style, and then to to_ansi_color(syntect foreground). Background, attributes and decoration are never touched. Safety of the trailing-newline truncation.",
+    note=_COMMON_NOTE + " syntect itself, theme independence as a two-run relation and the language lookup are not decided; the loop that groups characters is checked for safety only."),
+ "C16": dict(
+    text="Proof (Verus) that make_style_sections never slices outside the line or inside a character whatever submatch offsets an `rg --json` record carries: the cursor stays on a char boundary inside the line, invalid/overlapping ranges are skipped.",
+    note=_COMMON_NOTE + " Only this kernel is under contract: the grep regexes, serde parsing and expand_tabs' offset shift (closures, partition_point) are outside the verifier's reach; 'sections concatenate to the line' is not yet proved (vstd's str slicing theory)."),
  "C17": dict(
     text="Proof (Verus) of the colour rules of the real get_color/get_next_color: a repeated attribution gets the colour recorded for it, a line attributed differently from its predecessor never gets the predecessor's colour (palette of >= 2 distinct entries), a reappearing attribution keeps its colour unless that collides with the line above; no division by zero, no unreachable arm.",
     note=_COMMON_NOTE + " Assumed: String obeys vstd's hash-table key model, a borrowed key maps to at most one value, the palette is non-empty (Config::from exits otherwise). The blame regex and chrono are not modelled."),
@@ -39,7 +45,7 @@ CLAIMS = {
     note=_COMMON_NOTE + " Exact header counts over whole histories and box drawing are not decided."),
 }
 _NOT_YET = "check not built yet in this session (planned, see DESIGN.md section 4)"
-NA = {p: _NOT_YET for p in ["C02","C06","C07","C12","C13","C15","C16","C20"]}
+NA = {p: _NOT_YET for p in ["C02","C06","C07","C12","C13","C20"]}
 NA["C18"] = "quantifies over OS-level fault sequences, child exit statuses and pager selection (run_app / OutputType::try_pager: Command::spawn, wait, process::exit); neither installed deductive verifier has a model of these and no function with a meaningful contract can be separated without refactoring unguarded source (DESIGN.md section 5)"
 for _p in CLAIMS:
     CLAIMS[_p].setdefault("technique", _V)
